@@ -656,6 +656,9 @@ impl FileStateMachine {
                                     }
                                 }
                             } else {
+                                if let Some(ref lease) = self.lease {
+                                    lease.unregister(&key);
+                                }
                                 debug!("Replayed INSERT: key={:?}", key);
                             }
 
@@ -1202,6 +1205,9 @@ impl StateMachine for FileStateMachine {
                                 .as_ref()
                                 .expect("lease always initialized by NodeBuilder");
                             lease.register(key.clone(), *ttl);
+                        } else if let Some(ref lease) = self.lease {
+                            // Overwrite without TTL: the new value must not inherit the old expiry.
+                            lease.unregister(key);
                         }
                         results.push(ApplyResult::success(entry.index));
                     }
@@ -1230,6 +1236,10 @@ impl StateMachine for FileStateMachine {
                         });
                         if cas_success {
                             data.insert(key.clone(), (new_value.clone(), entry.term));
+                            // CAS writes carry no TTL: cancel any earlier expiry of this key.
+                            if let Some(ref lease) = self.lease {
+                                lease.unregister(key);
+                            }
                         }
                     }
                 }
